@@ -14,8 +14,8 @@
 
    This file contains only the property theorems; proofs are in Proofs/Loky*.v. *)
 From Coq Require Import ZArith List Bool Arith.
-Require Import JV.Model.LokyExec JV.Model.LokyDrive JV.Proofs.LokyExec JV.Proofs.LokyExec2 JV.Proofs.LokyExec3
-               JV.Proofs.LokyPool.
+Require Import JV.Model.LokyExec JV.Model.LokyDrive JV.Model.LokyLock JV.Proofs.LokyExec JV.Proofs.LokyExec2
+               JV.Proofs.LokyExec3 JV.Proofs.LokyPool JV.Proofs.LokyLock.
 Import ListNotations.
 
 (* reachable e : e = run (new_exec mw qc pid0) evs for some parameters and some event list *)
@@ -118,8 +118,10 @@ Theorem C10_midsend_refuted :
 Proof. exact midsend_refuted. Qed.
 Print Assumptions C10_midsend_refuted.
 
-(* REFUTED instant (finding F28): workers (re)spawned by a submit after the manager thread went back to
-   wait().  submit() wakes the manager up and only then spawns the missing workers; the manager handles the
+(* Witness of the behaviour BEFORE fix F38 (commit fd55ac3; was finding F28 of this builder): workers
+   (re)spawned by a submit after the manager thread went back to wait().  The code now issues a second wakeup()
+   after spawning (C10_respawn_death_noticed below proves that this suffices); this theorem documents what the
+   stale sentinel list did.  submit() wakes the manager up and only then spawns the missing workers; the manager handles the
    wake-up and blocks again on the sentinels of the processes that existed at that moment.  A death of a new
    worker is then not noticed until another event arrives (a result, a submit, another worker's idle time-out:
    300 s by default).  [manager_wake_watch w] is the manager with the sentinel list w captured on entering wait;
@@ -154,6 +156,56 @@ Theorem C10_unlocked_submit_would_lose_a_future :
   mgr unlocked_trace_state = Exited /\ broken unlocked_trace_state = Some TerminatedWorkerError /\
   futs unlocked_trace_state 1 = FPending /\ 1 < nfut unlocked_trace_state.
 Proof. exact unlocked_submit_loses_future. Qed.
+
+(* ---------------------------------------------------------------------------------------------------
+   M10c (Model/LokyLock.v): submit and terminate_broken split at the points where the other thread can run,
+   with an explicit shutdown_lock and the sentinel list captured on entering wait().  All statements are
+   over ALL interleavings (induction on the fine-grained event list). *)
+
+(* The lock discipline.  submit holds shutdown_lock from its check to its return and flag_as_broken takes
+   the same lock: however the two halves of submit interleave with decision / flag / fail-all of
+   terminate_broken, an exited manager leaves no unfinished future (so no caller waits for ever). *)
+Theorem C10_lock_discipline : forall c evs mw qc p0, locked c = true ->
+  let st := frun c (finit mw qc p0) evs in
+  mgr (ex st) = Exited -> forall id, id < nfut (ex st) -> finished (futs (ex st) id) = true.
+Proof. exact lock_discipline. Qed.
+
+(* ... and the lock is needed: with flag_as_broken outside the lock (seeded defect C10-4) the schedule
+   check ; decision ; flag ; fail-all ; register leaves future 1 pending with the manager gone, whereas with
+   the lock the same schedule keeps the manager waiting for the lock until the submit has registered. *)
+Theorem C10_unlocked_flag_refuted :
+  let bad := frun unlocked_flag (finit 2 5 0) unlocked_trace in
+  let good := frun the_code (finit 2 5 0) unlocked_trace in
+  (mgr (ex bad) = Exited /\ futs (ex bad) 1 = FPending /\ 1 < nfut (ex bad)) /\
+  (mx good = MBreak1 TerminatedWorkerError /\ pending (ex good) = [0; 1] /\ broken (ex good) = None).
+Proof. exact unlocked_refuted. Qed.
+
+(* The wake-up order (fix F38).  Invariant: whenever the manager is blocked in wait(), every process of the
+   executor is in the sentinel list it waits on, or a wake-up is pending. *)
+Theorem C10_watch_invariant : forall c evs mw qc p0, rewake c = true -> FW (frun c (finit mw qc p0) evs).
+Proof. intros c evs mw qc p0 H. apply FW_run; [exact H | apply FW_init]. Qed.
+
+(* Hence a manager that waits with nothing to read notices a dead process of the executor at that very
+   wake-up, however the submits that (re)spawned workers were interleaved with it. *)
+Theorem C10_respawn_death_noticed : forall c evs mw qc p0 p, rewake c = true ->
+  let st := frun c (finit mw qc p0) evs in
+  mgr (ex st) = AtWait -> mx st = MNormal -> resq (ex st) = [] -> wakeup (ex st) = false ->
+  In p (procs (ex st)) -> wk (ex st) p = WDead ->
+  mx (fstep c st FWake) = MBreak1 TerminatedWorkerError.
+Proof. exact respawn_death_noticed. Qed.
+
+(* ... and the second wakeup() is needed: without it (the code before F38) the schedule "all workers retire;
+   submit registers and wakes the manager; the manager is back in wait(); submit spawns; the new worker
+   takes the task and dies" blocks the manager for ever; with it the manager is re-woken and notices. *)
+Theorem C10_before_F38_refuted :
+  let old := frun before_F38 (finit 2 5 0) before_F38_trace in
+  let new := frun the_code (finit 2 5 0) before_F38_trace in
+  (mgr (ex old) = AtWait /\ mx old = MNormal /\ resq (ex old) = [] /\ wakeup (ex old) = false /\
+   In 2 (procs (ex old)) /\ wk (ex old) 2 = WDead /\ futs (ex old) 1 = FRunning /\
+   fstep before_F38 old FWake = old) /\
+  (wakeup (ex new) = true /\
+   mx (frun the_code new [FWake; FFeed; FWake]) = MBreak1 TerminatedWorkerError).
+Proof. exact before_F38_refuted. Qed.
 
 (* A worker that dies AFTER its whole result message was written: which outcome the affected call has is a
    race between the results of the other workers and the manager thread noticing the sentinel
